@@ -618,7 +618,7 @@ impl Swift {
                         swift_keyword_aware_rename(&variant_name).into_owned()
                     } else {
                         format!(
-                            r##"{} = "{}""##,
+                            "{} = {:?}",
                             swift_keyword_aware_rename(&variant_name),
                             &v.shared().id.renamed
                         )
